@@ -2,7 +2,7 @@
 import z3
 
 from props.common import *
-from props.env import install_env, path_id
+from props.env import install_env, path_id, fs_fact, fs_axioms
 
 
 def _ino_summaries(eng):
@@ -161,9 +161,11 @@ def lemma_handle_new(ctx):
             ctx.lemma(eng, "C09: a backup is made only for numbered, or auto with an existing backup, and an existing destination", p.pc, cond)
         else:
             saw.add("nobackup")
-            must = z3.Or(z3.And(is_num, exists[0].ret.t if exists else z3.BoolVal(False)),
-                         z3.And(is_auto, exists[0].ret.t if exists else z3.BoolVal(False), hb[0].ret.t if hb else z3.BoolVal(True)))
-            ctx.lemma(eng, "C09: numbered mode (and auto with an existing backup) never overwrites an existing file without a backup", p.pc, z3.Not(must))
+            # "an existing destination file": the path resolves to a regular file (the one File::create would truncate),
+            # whichever probe the code used to find out
+            dest_file = fs_fact("is_file", "to_path")
+            must = z3.Or(z3.And(is_num, dest_file), z3.And(is_auto, dest_file, hb[0].ret.t if hb else z3.BoolVal(True)))
+            ctx.lemma(eng, "C09: numbered mode (and auto with an existing backup) never overwrites an existing file without a backup", p.pc + fs_axioms("to_path"), z3.Not(must))
     for k in ("backup", "nobackup"):
         (ctx.passed if k in saw else ctx.fail)("witness: path with " + k, "")
     ctx.bounds = "loop-free; all backup modes x destination exists/absent x has_backup x alias relation x one failed call"
